@@ -121,9 +121,16 @@ def hex_symmetry_line_classification_matches_coordinates(ctx):
     ctx.check("120-degree line iff polar angle 120", IFF(line == BOUNDARY_120_DEGREES, AND(CLOSE(y, -s3 * x, sc), x < 0)))
 
 
-@harness("C08", bounds="all integers i,j,k-index; rotations in the window [-13,13]; both orientations",
-         stubs=STUBS, instances={"quick": [dict(cornersUp=False), dict(cornersUp=True)]})
-def hex_rotate_index_rotates_coordinates(ctx, cornersUp):
+# the obligations of this harness are spread over three instances per orientation (the windows of rotations whose
+# coordinates are compared; the period / composition relations go with the middle window): same obligations, shorter
+# critical path of the check
+_ROT_WINDOWS = {"low": range(-13, -4), "mid": range(-4, 5), "high": range(5, 14)}
+
+
+@harness("C08", bounds="all integers i,j,k-index; rotations in the window [-13,13] (three sub-windows = three instances); "
+                       "both orientations",
+         stubs=STUBS, instances={"quick": [dict(cornersUp=cu, window=w) for cu in (False, True) for w in _ROT_WINDOWS]})
+def hex_rotate_index_rotates_coordinates(ctx, cornersUp, window):
     i, j, kk = ctx.int("i"), ctx.int("j"), ctx.int("k")
     p = ctx.real("pitch", 0.01, 1000.0)
     g = HexGrid.fromPitch(p, numRings=1, cornersUp=cornersUp)
@@ -131,15 +138,20 @@ def hex_rotate_index_rotates_coordinates(ctx, cornersUp):
     x, y, _ = g.getCoordinates((i, j, 0))
     scale = p * (abs(i) + abs(j) + 1)
     rotated = {}
+    win = _ROT_WINDOWS[window]
     for r in range(-13, 14):
         n = g.rotateIndex(loc, r)
         rotated[r] = n
+        if r not in win:
+            continue
         nx, ny, _ = g.getCoordinates((n.i, n.j, 0))
-        wx, wy = rot60(ctx, x, y, r + (1 if ctx.canary and r == 7 else 0))
+        wx, wy = rot60(ctx, x, y, r + (1 if ctx.canary and r == win[-2] else 0))
         ctx.check_close("rotateIndex(%d): x rotated by %d deg" % (r, 60 * r), nx, wx, scale=scale)
         ctx.check_close("rotateIndex(%d): y rotated by %d deg" % (r, 60 * r), ny, wy, scale=scale)
         ctx.check("rotateIndex(%d) keeps axial index and grid" % r, AND(n.k == kk, n.grid is g))
         ctx.check_eq("rotateIndex(%d) preserves the ring" % r, hexdist(n.i, n.j), hexdist(i, j))
+    if window != "mid":
+        return
     for r in range(-13, 8):
         ctx.check("period six (%d)" % r, AND(rotated[r].i == rotated[r + 6].i, rotated[r].j == rotated[r + 6].j))
     for a in range(-3, 4):
